@@ -50,6 +50,13 @@ SrcOf(sk) ==
      [] sk = "strit" -> UNION {Ranges(sk, x) : x \in PartSrcs}
      [] sk = "fsit" -> UNION {Ranges(sk, x) : x \in {y \in PartSrcs : Len(y) <= L}}
      [] sk = "selfit" -> {<<sk, <<>>, q[3], q[4], 0>> : q \in Ranges(sk, s)}
+     \* self-aliasing sources: src is the current content (resp. the C string starting at index k of it); every
+     \* k in 0..Len(s) (k = Len(s): pointer to the terminating zero), counts as for the other kinds
+     [] sk = "self" -> {<<sk, s, 0, NPos, 0>>}
+     [] sk = "self_pos_cnt" -> {<<sk, s, p, c, 0>> : p \in Pos2(s), c \in Cnt2}
+     [] sk = "self_pos" -> {<<sk, s, p, NPos, 0>> : p \in Pos2(s)}
+     [] sk = "selfptr" -> {<<sk, CStrAt(s, k), k, NPos, 0>> : k \in 0..Len(s)}
+     [] sk = "selfptr_cnt" -> UNION {{<<sk, CStrAt(s, k), k, c, 0>> : c \in 0..(Len(s) - k)} : k \in 0..Len(s)}
      [] OTHER -> {<<sk, <<>>, 0, 0, 0>>}                   \* "none", "mut", "const", "c"
 Srcs(sks) == UNION {SrcOf(k) : k \in sks}
 \* one call: inside the documented domain the specified step, outside it (only when WildArgs) the absorbing state
@@ -61,6 +68,8 @@ Fam(op, tks, p1s, c1s, sks) == \E tk \in tks, p1 \in p1s, c1 \in c1s, q \in Srcs
 
 WholeSk == {"cstr", "str", "fs", "fs2"}
 PartSk == {"str_pos_cnt", "str_pos", "fs_pos_cnt", "fs_pos", "fs2_pos_cnt", "fs2_pos"}
+SelfSk == {"self", "self_pos_cnt", "self_pos", "selfptr", "selfptr_cnt"}      \* the object itself / c_str() + k as source
+SelfWholeSk == {"self", "selfptr"}
 ItPos == IF WildArgs THEN 0..(L + 1) ELSE 0..Len(s)          \* an iterator built as begin() += p (p >= length gives end())
 IdxLegal == 0..Len(s)                                     \* operator[] / iterator[]: undefined behaviour beyond (documented)
 
@@ -83,8 +92,25 @@ AllCalls ==
    \/ Fam("sprintf", {"fmt"}, 0..3, {0}, {"str"})
    \/ Fam("replace", {"pos_cnt"}, Pos1, Cnt1, WholeSk \cup {"cnt_ch", "cstr_cnt"})
    \/ Fam("replace", {"pos_cnt"}, Pos1, Cnt1Small, PartSk)
-   \* (iterators into the string itself as replacement are not generated: aliasing is not documented)
    \/ Fam("replace", {"it_it"}, ItPos, 0..(L + 1), {"fsit", "strit", "cstr_cnt", "cstr", "cnt_ch", "ilist"})
+   \* ---- self-aliasing sources (defined by std::string as if the source had been copied before the call):
+   \* the object itself, pointers (c_str() + k) and iterators into its own buffer
+   \/ Fam("assign", {"assign", "op_eq"}, {0}, {0}, SelfWholeSk)
+   \/ Fam("insert", {"idx"}, Pos1, {0}, SelfSk)
+   \/ Fam("append", {"app"}, {0}, {0}, SelfSk)
+   \/ Fam("append", {"pe"}, {0}, {0}, SelfWholeSk)
+   \/ Fam("replace", {"pos_cnt"}, Pos1, Cnt1, SelfSk)
+   \/ Fam("replace", {"it_it"}, ItPos, 0..(L + 1), {"selfit", "selfptr", "selfptr_cnt"})
+   \/ Fam("compare", {"whole"}, {0}, {NPos}, SelfWholeSk)
+   \/ Fam("compare", {"pos_cnt"}, Pos1, Cnt1, SelfWholeSk \cup {"self_pos_cnt", "selfptr_cnt"})
+   \/ \E op \in {"find", "find_first_of", "find_first_not_of"} :
+         \/ Fam(op, {"pos"}, Pos1, {0}, SelfWholeSk \cup {"selfptr_cnt"})
+         \/ Fam(op, {"nopos"}, {0}, {0}, SelfWholeSk)
+   \/ \E op \in {"rfind", "find_last_of", "find_last_not_of"} :
+         \/ Fam(op, {"pos"}, Pos1 \cup {NPos}, {0}, SelfWholeSk \cup {"selfptr_cnt"})
+         \/ Fam(op, {"nopos"}, {NPos}, {0}, SelfWholeSk)
+   \/ \E op \in {"starts_with", "ends_with", "contains"} : Fam(op, {"none"}, {0}, {0}, SelfWholeSk)
+   \/ Fam("rel", {"eq", "ne"}, {0}, {0}, {"self"})
    \/ Fam("swap", {"other"}, {0}, {0}, {"fs"})
    \/ Fam("swap", {"self"}, {0}, {0}, {"none"})
    \/ Fam("set", {"at", "idx", "it", "rit"}, IdxLegal \ {Len(s)}, {0}, {"ch"})
